@@ -1319,7 +1319,14 @@ pub fn run_engine(s: &mut Src, ctx: &mut Ctx) -> Verdict {
                     return Verdict::Discard("engine-query-not-provable-from-facts");
                 }
                 let cands: BTreeSet<String> = res.proof_trace.steps.iter().map(|st| st.rule_name.clone()).collect();
-                let need: Vec<usize> = snapshot.values().filter(|r| r.enabled && r.sets().contains(field)).map(|r| r.name).collect();
+                // demanded: rules the index was built from AND that are still in the knowledge base (a rule removed
+                // since the last rebuild is no longer "an enabled rule that assigns the goal's field")
+                let need: Vec<usize> = snapshot
+                    .values()
+                    .filter(|r| r.enabled && r.sets().contains(field))
+                    .filter(|r| model.get(&r.name).map(|cur| cur.enabled && cur.sets().contains(field)).unwrap_or(false))
+                    .map(|r| r.name)
+                    .collect();
                 if let Some(m) = need.iter().find(|n| !cands.contains(&rule_name(**n))) {
                     return Verdict::fail(
                         "engine-candidates-missing-rule",
